@@ -33,7 +33,10 @@ class C17(Check):
         keys = list(uni.defs)
         scn: dict = {"ws": ws, "fmt": {}, "event": None, "read_seed": rng.randrange(1 << 30)}
         for _attempt in range(12):
-            if rng.random() < 0.6:
+            r0 = rng.random()
+            if r0 < 0.08:
+                scn["event"] = {"k": "error", "name": "union-offset", "def": rng.choice(keys), "seed": rng.randrange(1 << 30)}
+            elif r0 < 0.6:
                 names = [n for n, v in MU.RAW.items() if v[2] == "reject"] + sorted(MU.LAZY) + sorted(MU.FINAL)
                 scn["event"] = {"k": "error", "name": rng.choice(names), "def": rng.choice(keys), "seed": rng.randrange(1 << 30)}
             else:
@@ -57,6 +60,20 @@ class C17(Check):
             if ev["def"] not in uni.defs:
                 raise InvalidScenario("event site unknown")
             d = uni.defs[ev["def"]]
+            if ev["name"] == "union-offset":
+                # `_offset_` evaluated between two variants of a union: the *next* field statement is the offending one
+                rr = random.Random(ev["seed"])
+                cands = [(si, s0) for si, s0 in enumerate(d["secs"]) if s0.get("union")]
+                if not cands:
+                    return ws, []
+                si, s0 = rr.choice(cands)
+                fidx = [i for i, it in enumerate(s0["items"]) if it[0] == "f"]
+                if len(fidx) < 2:
+                    return ws, []
+                j = rr.randrange(1, len(fidx))  # the raw line goes right before field number j (>= 1 variant precedes it)
+                s0["items"].insert(fidx[j], ["raw", "@assert _offset_.count >= 1", []])
+                sites.append((ev["def"], "%d:%d" % (si, fidx[j] + 1), None, "lazy"))
+                return ws, sites
             pos = MU.inject_raw(random.Random(ev["seed"]), d, ev["name"])
             if pos is None:
                 return ws, []
